@@ -360,6 +360,10 @@ def impl_oracle(c):
     (key, what, replay) for each way the real backends depart from it."""
     out = []
     obs = c["obs"]
+    if c["stream"] == "overflow":
+        # offsets / limits of 2^63 and more are outside the statement; these
+        # observations are compared with the models only
+        return out
     for a, b in (("mo", "so"), ("mu", "su")):
         if strip(obs[a]) != strip(obs[b]):
             ops = c.get("min") or c["ops"]
@@ -469,7 +473,8 @@ def run(ck):
             for c in part:
                 for s_, st, ordd in STORES:
                     exp = "[" + "; ".join(res_to_coq(o, r, P) for o, r in zip(c["ops"], c["obs"][s_])) + "]"
-                    cs.append("CHist %s %s hk_%d ops_%d %s" % (st, ordd, c["i"], c["i"], exp))
+                    cs.append("%s %s %s hk_%d ops_%d %s" % ("CModel" if c["stream"] == "overflow" else "CHist",
+                                                           st, ordd, c["i"], c["i"], exp))
             txt = ("From Coq Require Import List NArith Bool.\n"
                    "From Verif Require Import Kv.KeyOrd Kv.Spec Kv.KvCorr.\n"
                    "Import ListNotations.\nLocal Open Scope N_scope.\n"
@@ -492,6 +497,11 @@ def run(ck):
                 mism += [(s + i // 4, i % 4) for i in got]
         ck.coverage["correspondence_cases"] = 4 * len(cases)
         ck.coverage["correspondence_mismatches"] = len(mism)
+        by_stream = {}
+        for hi, si in mism:
+            k = cases[hi]["stream"] + "/" + STORES[si][0]
+            by_stream[k] = by_stream.get(k, 0) + 1
+        ck.coverage["correspondence_mismatches_by_stream"] = by_stream
         for hi, si in mism[:60]:
             c = cases[hi]
             sname = STORES[si][0]
@@ -501,7 +511,9 @@ def run(ck):
             # the implementation departs from it is a failing input even if the
             # Python reference did not notice; with a broken obligation the model
             # describes other source, and only the oracle's findings count
-            if c["i"] not in failing and proofs_ok:
+            # (the overflow stream lies outside the statement: a mismatch there breaks the
+            # exactness of the model, it is not a failing input of the property)
+            if c["i"] not in failing and proofs_ok and c["stream"] != "overflow":
                 ck.violation("corr:%s:%s" % (sname, c["stream"]),
                              "the %s backend does not behave as the proved model / reference map on this history"
                              % {"m": "memory", "s": "sqlite"}[sname[0]],
